@@ -52,7 +52,10 @@ def plan(tier, seed):
 def _reference(M, H0m, H1m, keep, orders):
     E = np.diag(H0m).real
     deg = np.abs(E[:, None] - E[None, :]) < 1e-9
-    if np.any(deg & ~keep):
+    # degenerate levels that are to be decoupled matter only if the perturbation connects them within the orders computed
+    A = (np.abs(H1m) > 1e-14).astype(float) + np.eye(len(E))
+    reach = np.linalg.matrix_power(A, max(1, max(sum(n) for n in orders))) > 0
+    if np.any(deg & ~keep & reach):
         # two distinct levels of the truncated space that are to be decoupled are degenerate: the perturbation couples
         # them at some order, which is outside the property's domain (it would need degenerate perturbation theory)
         raise Inconclusive("accidental degeneracy between levels that are to be decoupled (outside the domain)")
@@ -166,9 +169,15 @@ def run_case(spec):
             else:
                 kdim = 2
                 delta = secondq.R(int(rng.integers(1, 6)), 7) + secondq.R(1, 2)
-                H0b = [[h0 + delta / 2, 0], [0, h0 - delta / 2]]
                 lo, hi = secondq.gens_of(ops[0])
                 coup = [lo, lo + hi, hi * lo + 1, lo**2 if isinstance(ops[0], BosonOp) else lo][int(rng.integers(4))]
+                if family == "matrix_fd" and isinstance(ops[0], BosonOp) and rng.random() < 0.7:
+                    # identical operator-valued H_0 entries for the two matrix states, coupled only by a number-changing
+                    # (non-Hermitian) entry a / a^dagger: the coupled levels |n, 0> and |n-1, 1> are still non-degenerate
+                    delta = secondq.R(0)
+                    coup = [lo, lo**2][int(rng.integers(2))]
+                    counters["matrix_fd_identical_h0_entries"] += 1
+                H0b = [[h0 + delta / 2, 0], [0, h0 - delta / 2]]
                 if family == "mask":
                     coup = lo + hi
                     mask_conserving = bool(rng.random() < 0.35)
